@@ -54,5 +54,15 @@ m = {
     "not_applicable": na,
     "notes": "Solver-based checking of the real code only (Kani/CBMC SAT queries over the compiled crate; z3/cvc5 for C16). Exit codes: 0 held, 1 VIOLATION (natively replayed), 2 inconclusive. See DESIGN.md.",
 }
+# sanity: every registered harness name exists in the harness sources
+import glob, re
+_src = "".join(open(f).read() for f in glob.glob(os.path.join(os.path.dirname(os.path.abspath(__file__)), "harness", "inc", "*.rs")))
+_names = set(re.findall(r"fn (\w+)\s*\(", _src)) | set(re.findall(r"(?:hist_proof|step_proof|life_proof|array_step)!\(\s*(\w+)\s*,", _src))
+for _pid, _spec in registry.PROPS.items():
+    for _tier in ("quick", "thorough"):
+        for _j in _spec.get(_tier, []):
+            if _j["harness"].split("::")[-1] not in _names:
+                print("WARNING: %s/%s registers unknown harness %s" % (_pid, _tier, _j["harness"]))
+
 json.dump(m, open(os.path.join(os.path.dirname(os.path.abspath(__file__)), "MANIFEST.json"), "w"), indent=1)
 print("MANIFEST.json: %d checks, %d not_applicable" % (len(checks), len(na)))
